@@ -144,7 +144,7 @@ func genValue(t *rapid.T, label string) float64 {
 }
 
 var pointTypes = filterSafe([]string{"value", "units", "min", "port", "baud", "a b", "x:y", "description2", "a#b", "é"}, false)
-var pointKeys = filterSafe([]string{"", "0", "1", "2", "a", "k.1", "- k", "null", "10", "a: b", "#k", "007", "1e3", "yes", "k'"}, true)
+var pointKeys = filterSafe([]string{"", "0", "1", "2", "a", "k.1", "- k", "null", "10", "a: b", "#k", "007", "1e3", "yes", "k'", "00", "-0", "+0", "0.0", "0x0"}, true)
 
 // filterSafe drops type/key candidates the YAML library does not round-trip
 // on its own (part of finding C15-F1).
@@ -372,7 +372,9 @@ func compare(a, b *live, top bool, idMap map[string]string, refs *[][2]string) s
 
 func TestPropExportImport(t *testing.T) {
 	rapid.Check(t, func(t *rapid.T) {
-		g := &gen{t: t, clock: int64(1800000000) * 1e9}
+		// generated times lie in the past: what the importer stamps with the wall
+		// clock is then newer than anything written before, as it is in real use
+		g := &gen{t: t, clock: int64(1700000000) * 1e9}
 		root := g.node(0)
 		root.deleted = false
 		src := fix.New(t, fix.Opts{ID: "inst"})
@@ -428,11 +430,13 @@ func TestPropExportImport(t *testing.T) {
 		}
 
 		preserve := rapid.Bool().Draw(t, "preserveIDs")
-		where := rapid.SampledFrom([]string{"otherNode", "rootNode", "secondInstance", "otherNode", "rootNode", "secondInstance", "replaceRoot"}).Draw(t, "target")
+		where := rapid.SampledFrom([]string{"otherNode", "rootNode", "secondInstance", "otherNode", "rootNode", "secondInstance", "replaceRoot", "restoreDeleted", "rootOntoItself"}).Draw(t, "target")
 		dst := src
 		parent := ""
 		switch {
-		case preserve:
+		case where == "rootOntoItself":
+			// handled below
+		case preserve && where != "restoreDeleted":
 			// preserved ids go to a second instance (on the same one they would name
 			// the very nodes that were exported); the parent there has the original
 			// parent's id, another id, or is the instance root
@@ -446,6 +450,12 @@ func TestPropExportImport(t *testing.T) {
 			if parent != "inst2" {
 				write(t, dst, parent, "inst2", data.Points{{Type: data.PointTypeTombstone, Time: g.tick()}, {Type: data.PointTypeNodeType, Text: data.NodeTypeGroup}})
 			}
+		case where == "restoreDeleted":
+			// the backup-and-restore use: the exported subtree is deleted, then
+			// imported again with its ids under the same parent of the same instance
+			preserve = true
+			write(t, src, root.id, "holder", data.Points{{Type: data.PointTypeTombstone, Value: 1, Time: g.tick()}})
+			parent = "holder"
 		case where == "otherNode":
 			write(t, src, "dest", "inst", data.Points{{Type: data.PointTypeTombstone, Time: g.tick()}, {Type: data.PointTypeNodeType, Text: data.NodeTypeGroup}})
 			parent = "dest"
@@ -461,6 +471,37 @@ func TestPropExportImport(t *testing.T) {
 			dst = fix.New(t, fix.Opts{ID: "inst2"})
 			defer dst.Close()
 			parent = "inst2"
+		}
+		if where == "rootOntoItself" {
+			// a whole instance is exported and imported again at "root" with its ids:
+			// nothing changes (the root is not its own "old root")
+			yAll, err := client.ExportNodes(src.NC, "inst")
+			if err != nil {
+				if strings.Contains(err.Error(), "nats: timeout") {
+					stats.Inconclusive("helper 1 s request timeout")
+					t.Skip("helper timeout")
+				}
+				t.Fatalf("ExportNodes(inst): %v", err)
+			}
+			if err := client.ImportNodes(src.NC, "root", yAll, "importer", true); err != nil {
+				if strings.Contains(err.Error(), "nats: timeout") {
+					stats.Inconclusive("helper 1 s request timeout")
+					t.Skip("helper timeout")
+				}
+				t.Fatalf("importing the export of the whole instance at root with preserved ids failed: %v\nyaml:\n%s", err, yAll)
+			}
+			again, err := readTree(src, "holder", root.id)
+			if err != nil {
+				t.Fatalf("reading the tree after the import onto itself: %v", err)
+			}
+			if s := compare(orig, again, false, map[string]string{}, &[][2]string{}); s != "" {
+				t.Fatalf("import of the whole instance onto itself changed the tree: %s\nyaml:\n%s", s, yAll)
+			}
+			if rn, err := client.GetRootNode(src.NC); err != nil || rn.ID != "inst" {
+				t.Fatalf("root after the import onto itself: %v %v", rn.ID, err)
+			}
+			stats.Case(true, stats.Digest(string(yAll), where), "target:rootOntoItself")
+			return
 		}
 		err = client.ImportNodes(dst.NC, parent, y, "importer", preserve)
 		if err != nil {
